@@ -23,7 +23,8 @@ def _is_keyed(obj):
 
 
 class Snapshot:
-    def __init__(self, root):
+    def __init__(self, root, skip=None):
+        self.skip = skip  # skip(owner, key) -> True prunes the edge owner.__dict__[key]
         self.keep = []  # strong refs
         self.nodes = {}  # id -> (kind, content)
         self.root = self._walk(root)
@@ -57,7 +58,8 @@ class Snapshot:
             self.nodes[oid] = ("set", sorted((self._walk(x) for x in obj), key=repr))
         elif hasattr(obj, "__dict__"):
             d = object.__getattribute__(obj, "__dict__")
-            self.nodes[oid] = ("inst:" + type(obj).__name__, [(k, self._walk(v)) for k, v in d.items()])
+            self.nodes[oid] = ("inst:" + type(obj).__name__, [
+                (k, ("pruned", id(v)) if self.skip is not None and self.skip(obj, k) else self._walk(v)) for k, v in d.items()])
         else:
             self.nodes[oid] = ("opaque", repr(obj))
         return ref
@@ -97,12 +99,12 @@ def snap(obj):
 
 
 def unchanged(before: Snapshot, obj) -> bool:
-    after = Snapshot(obj)
+    after = Snapshot(obj, before.skip)
     return before.identity_form() == after.identity_form()
 
 
 def diff(before: Snapshot, obj) -> str:
-    after = Snapshot(obj)
+    after = Snapshot(obj, before.skip)
     if before.root != after.root:
         return f"root {before.root} -> {after.root}"
     for oid, node in before.nodes.items():
